@@ -493,6 +493,88 @@ theorem C18_molfile_header_edit (f : MolFile) (h : Header) (g : Header → Heade
     · simp [MolFile.editHeader, MolFile.getHeader, hc, hp, Except.map]
     · simp [MolFile.written, header_serialize_eq (g h) hv, Except.map]
 
+/-! ## Refusals: what lies outside the hypotheses above is rejected, not written -/
+
+/-- An element symbol wider than its three columns makes the V2000 writer raise
+`BadStructureError` (it used to shift the atom line). -/
+theorem C18_v2000_long_element_rejects (m : Mol) (d : Nat) (h : ∃ a ∈ m.atoms, 3 < a.elem.length) :
+    writeV2000 m d = .error .badStructure := by
+  obtain ⟨a, ha, hl⟩ := h
+  have : elemWidthOk m = false := by
+    unfold elemWidthOk
+    rw [List.all_eq_false]
+    exact ⟨a, ha, by simp; omega⟩
+  simp [writeV2000, this]
+
+/-- `Metadata.Key(...)` accepts exactly the keys of the grammar (`ValidKey`): every other
+combination — no number and no name, a name outside `[a-zA-Z0-9][\w.]*`, an external registry
+part outside `[\w.-]*` — is a `ValueError` (negative numbers are not expressible in the model; the
+code refuses them too). -/
+theorem C18_key_accepted_iff (k : Key) : k.valid = true ↔ ValidKey k := by
+  unfold ValidKey
+  constructor
+  · intro h
+    refine ⟨h, ?_⟩
+    intro s hs
+    simp only [Key.valid, hs, Bool.and_eq_true] at h
+    exact h.2
+  · exact fun h => h.1
+
+/-- `metadata[key] = value` is refused with `ValueError` exactly when the key is not of the grammar
+or the value is empty, has a blank line or a line starting with `>`; every value allowed by the
+round-trip theorem (`ValueLineOk` lines) is accepted. -/
+theorem C18_metadata_setitem (md : Metadata) (k : Key) (v : List Line) :
+    (Metadata.setItem md k v = .error .valueError ↔ ¬ (k.valid = true ∧ valueOk v = true)) ∧
+    (k.valid = true → valueOk v = true → Metadata.setItem md k v = .ok (dictSet k v md)) ∧
+    (v ≠ [] → (∀ l ∈ v, ValueLineOk l) → valueOk v = true) := by
+  refine ⟨?_, ?_, ?_⟩
+  · unfold Metadata.setItem
+    cases hk : k.valid <;> cases hv : valueOk v <;> simp
+  · intro hk hv; simp [Metadata.setItem, hk, hv]
+  · intro hne hl
+    unfold valueOk
+    have h1 : v.isEmpty = false := by cases v with | nil => exact absurd rfl hne | cons _ _ => rfl
+    simp only [h1, Bool.not_false, Bool.true_and, List.all_eq_true, Bool.and_eq_true, Bool.not_eq_true']
+    intro l hlm
+    obtain ⟨hne', htl, htr, hgt⟩ := hl l hlm
+    rw [strip_tight l htl htr]
+    refine ⟨?_, hgt⟩
+    cases l with
+    | nil => exact absurd rfl hne'
+    | cons _ _ => rfl
+
+/-- `SDFile.serialize` refuses (`SerializationError`) a file in which some record has a line that
+starts with `$$$$`, and whatever it does write contains no such line inside a record. -/
+theorem C18_sdf_delim_line_rejects (rs : List SDRec) (d : Nat) (v : Version) (recs : List (List Line))
+    (hm : rs.mapM (fun r => r.serialize d v) = .ok recs) :
+    (noDelimLines recs = false → sdfSerialize rs d v = .error serErr) ∧
+    (noDelimLines recs = true → sdfSerialize rs d v = .ok (joinRecords recs)) := by
+  constructor <;> intro h <;> simp [sdfSerialize, hm, h, bind, Except.bind, pure, Except.pure]
+
+/-- An `SDFile` without records is written as the empty text, which the reader refuses
+(`IndexError`) — the reason for `rs ≠ []` in `C18_sdf_file_roundtrip`. -/
+theorem C18_sdf_empty_rejects (d : Nat) (v : Version) :
+    sdfSerialize [] d v = .ok [] ∧ sdfDeserialize [] = .error .indexError := by
+  constructor <;> rfl
+
+/-- A molecule without atoms is written as a V3000 table whose ATOM block is empty, which the
+reader refuses (`InvalidFileError`) — the reason for `m.atoms ≠ []` in `C18_ctab_roundtrip_v3000`;
+V2000 holds it (`0 0` counts line). -/
+theorem C18_v3000_empty_rejects (d dc : Nat) (hd : codeOfBond d = some dc) :
+    (writeV3000 ⟨[], []⟩ d).bind readCtab = .error .invalidFile ∧
+    (writeV2000 ⟨[], []⟩ d).bind readCtab = .ok ⟨[], []⟩ := by
+  constructor
+  · have h0 : codeOfBond 0 = some 8 := rfl
+    have : writeV3000 ⟨[], []⟩ d = writeV3000 ⟨[], []⟩ 0 := by
+      unfold writeV3000
+      simp only [hd, h0, mapIdxFrom]
+    rw [this]; decide
+  · have h0 : codeOfBond 0 = some 8 := rfl
+    have : writeV2000 ⟨[], []⟩ d = writeV2000 ⟨[], []⟩ 0 := by
+      unfold writeV2000
+      simp only [hd, h0, List.map_nil]
+    rw [this]; decide
+
 /-! ## Coordinates after the float32 store -/
 
 /-- **"Coordinates to 0.0001", over ℚ.**  Let `x = q.val` be a float32 (`IsF32`: `m·2^e`,
